@@ -475,6 +475,59 @@ func main() {
 			}
 		}
 		rec([]op{ops[j.first]})
+		// snapshot sandwiches (two operations deeper than the general search): a, snapshot, one or two writes, restore.
+		// An entry that was only read or only added before the snapshot must come back exactly as it was.
+		a := ops[j.first]
+		if a.Kind != "snap" && a.Kind != "restore" && a.Kind != "delsnap" {
+			for _, b1 := range ops {
+				if b1.Kind != "set" && b1.Kind != "del" {
+					continue
+				}
+				for _, b2 := range append([]op{{Kind: "none"}}, ops...) {
+					if b2.Kind != "set" && b2.Kind != "del" && b2.Kind != "none" {
+						continue
+					}
+					if b2.Kind != "none" && (b2.View != b1.View && b2.View != a.View) {
+						continue // keep the family small: the second write touches a view already involved
+					}
+					path := []op{a, {Kind: "snap", View: a.View}, b1}
+					if b2.Kind != "none" {
+						path = append(path, b2)
+					}
+					path = append(path, op{Kind: "restore", View: a.View, Snap: 0})
+					w := newWorld(d, store)
+					bad := ""
+					var badOp op
+					for _, o := range path {
+						if dd := w.exec(o); dd != "" {
+							bad, badOp = dd, o
+							break
+						}
+					}
+					r.Add("transitions", 1)
+					r.Add("snapshot_sandwiches", 1)
+					if bad == "" {
+						var n int
+						bad, badOp, n = battery(w)
+						r.Add("reads_compared", int64(n))
+						if bad == "" && b2.Kind == "none" {
+							checkCommit(r, dbs[j.dbi], path)
+						}
+					}
+					if bad != "" {
+						key := "staged-read-differs:" + classOf(badOp, bad)
+						if !seenClass[key] {
+							seenClass[key] = true
+							r.Violation(key, fmt.Sprintf("after %v on db %q: %v: %s", path, dbs[j.dbi], badOp, bad), caseT{dbs[j.dbi], path, &badOp})
+						} else {
+							r.Add("further_read_disagreements", 1)
+						}
+						continue
+					}
+					r.Add("states", 1)
+				}
+			}
+		}
 		if ji%40 == 0 {
 			r.Sample(map[string]interface{}{"initial_db": dbs[j.dbi], "first_op": ops[j.first].String(), "then": fmt.Sprintf("every sequence of up to %d further ops from an alphabet of %d, full read battery after each", depth-1, len(ops))})
 		}
